@@ -11,8 +11,8 @@ import (
 
 func init() {
 	register(&core.Property{
-		ID:    "C11",
-		Title: "No needless reloads: no-op resyncs and in-capacity endpoint changes stay dynamic",
+		ID:          "C11",
+		Title:       "No needless reloads: no-op resyncs and in-capacity endpoint changes stay dynamic",
 		Explanation: "Static decision of necessary conditions only: (1) the update pipeline runs SyncConfig, Shrink, the map writers, the dynamic updater and writeConfig in that order; (2) Shrink drops a re-created object only when it equals the committed one and then puts the COMMITTED object (which carries the live slot layout) back into the current state, for every shard setting; (3) the slot padding (alignSlots) runs exactly when a reload is due, visits every backend of the current state, and flags every backend it pads (typestate: `padded` implies `flagged` at the end of each iteration); (4) added endpoints consume free slots before a reload is declared and unused free slots are carried to the new backend.",
 		NotDecided: []string{
 			"slots-min-free / slots-increment arithmetic",
